@@ -194,7 +194,10 @@ impl WorkerResources {
     pub fn add(&mut self, rq: &ResourceRequest, all: &WorkerResources) {
         for entry in rq.entries() {
             if let Some(amount) = entry.request.amount_or_none_if_all() {
-                self.n_resources[entry.resource_id] += amount;
+                // `remove` saturates when a worker is temporarily overbooked, so returning the
+                // full amount could leave more free resources than the worker has
+                self.n_resources[entry.resource_id] =
+                    (self.n_resources[entry.resource_id] + amount).min(all.get(entry.resource_id));
             } else {
                 self.n_resources[entry.resource_id] = all.get(entry.resource_id);
             }
